@@ -77,6 +77,11 @@ func C02(r *core.Run) {
 	rule085(r, oblig.NewCtx(r.P))
 	rule0112(r, "C02")
 	rule0113(r)
+	rule105(r)
+	rule016(r, "C02")
+	rule1510(r)
+	rule1014(r)
+	rule0214(r)
 }
 
 // handler exceptions for R02.1, one reason each
@@ -990,4 +995,117 @@ func rule0213(r *core.Run) {
 	r.Check(okSrc, "R02.13", key(name, "source = the pair HeadObject examined"), pos(r, cp), "CopyObject(src bucket, src key, …) with the values given to HeadObject", "the source handed to CopyObject is not the (bucket, key) pair that was parsed from X-Amz-Copy-Source and examined with HeadObject: a cross-bucket copy reads another object")
 	okDst := len(a) >= 4 && bp != nil && op != nil && a[2] == ssa.Value(bp) && a[3] == ssa.Value(op)
 	r.Check(okDst, "R02.13", key(name, "destination = the addressed bucket and key"), pos(r, cp), "CopyObject(…, bucket, object, …)", "the destination handed to CopyObject is not the request's own bucket and key")
+}
+
+// maySucceedWithout returns the position of a return of fn that may report
+// success (its error result is not known to be non-nil there) and that is
+// reachable from the entry without any of the calls in group having been
+// made; "" if there is none. A return that hands back the error of a group
+// member itself is success exactly when that member succeeded and is fine.
+func maySucceedWithout(r *core.Run, fn *ssa.Function, group []*ssa.Call) string {
+	inGroup := func(y ssa.Instruction) bool {
+		for _, c := range group {
+			if y == ssa.Instruction(c) {
+				return true
+			}
+		}
+		return false
+	}
+	check := func(ret *ssa.Return, ev ssa.Value, via *ssa.BasicBlock) string {
+		ev = core.BlockLocalLoad(ev)
+		at := ret.Block()
+		if via != nil {
+			at = via
+		}
+		if !definitelyNil(r, ev) {
+			if core.NilnessAt(ev, at) == core.NonNil {
+				return ""
+			}
+			for _, g := range core.GuardsOf(at.Instrs[len(at.Instrs)-1]) {
+				if isNil, known := core.ErrNilFact(g, ev); known && !isNil {
+					return ""
+				}
+			}
+			for _, c := range group {
+				if e := core.ErrorResult(c); e != nil && (e == ev || carries(ev, e)) {
+					return ""
+				}
+				if ssa.Value(c) == ev { // `return tx.DeleteBucket(name)`
+					return ""
+				}
+			}
+		}
+		var target ssa.Instruction = ret
+		if via != nil {
+			target = via.Instrs[len(via.Instrs)-1]
+		}
+		if core.ReachableFromEntryAvoiding(target, inGroup) {
+			return pos(r, ret)
+		}
+		return ""
+	}
+	for ret, ev := range returnedErrors(fn) {
+		if ph, ok := ev.(*ssa.Phi); ok && ph.Block() == ret.Block() {
+			for i, e := range ph.Edges {
+				if i < len(ph.Block().Preds) {
+					if p := check(ret, e, ph.Block().Preds[i]); p != "" {
+						return p
+					}
+				}
+			}
+			continue
+		}
+		if p := check(ret, ev, nil); p != "" {
+			return p
+		}
+	}
+	return ""
+}
+
+// rule0214 — a bolt mutation is acknowledged only after it was made.
+func rule0214(r *core.Run) {
+	r.Rule("R02.14", "in the bolt backend the transaction body of CreateBucket, DeleteBucket, ForceDeleteBucket, PutObject and DeleteObject can end with a possibly-nil error only after the operation's own mutation was issued — tx.CreateBucket and the creation record, tx.DeleteBucket, Bucket.Put, Bucket.Delete (must-pass-through on every path to a return whose error is not known to be non-nil; a return of the mutation's own result counts): an operation that returns early with the nil it has just tested acknowledges a write it never made (the bolt backend has no tests of its own)")
+	type op struct {
+		method string
+		groups [][]string
+	}
+	n := 0
+	for _, o := range []op{
+		{"CreateBucket", [][]string{{"(*go.etcd.io/bbolt.Tx).CreateBucket", "(*go.etcd.io/bbolt.Tx).CreateBucketIfNotExists"}, {"s3bolt.(*metaBucket).createS3Bucket"}}},
+		{"DeleteBucket", [][]string{{"(*go.etcd.io/bbolt.Tx).DeleteBucket"}}},
+		{"ForceDeleteBucket", [][]string{{"(*go.etcd.io/bbolt.Tx).DeleteBucket"}}},
+		{"PutObject", [][]string{{"(*go.etcd.io/bbolt.Bucket).Put"}}},
+		{"DeleteObject", [][]string{{"(*go.etcd.io/bbolt.Bucket).Delete"}}},
+	} {
+		m := mustFunc(r, "s3bolt.(*Backend)."+o.method)
+		if m == nil {
+			continue
+		}
+		for gi, names := range o.groups {
+			// the function (the method or one of its closures) that makes the mutation
+			var host *ssa.Function
+			var group []*ssa.Call
+			for _, f := range append([]*ssa.Function{m}, m.AnonFuncs...) {
+				var g []*ssa.Call
+				core.Instrs(f, func(in ssa.Instruction) {
+					if c, ok := in.(*ssa.Call); ok && has(names, r.P.CalleeName(c)) {
+						g = append(g, c)
+					}
+				})
+				if len(g) > 0 {
+					host, group = f, g
+				}
+			}
+			k := key(fname(r, m), "acknowledged only after "+names[0], sprintf("#%d", gi+1))
+			if host == nil {
+				r.Violated("R02.14", k, r.P.Pos(m.Pos()), "the operation no longer issues "+names[0]+": it acknowledges a mutation it does not make")
+				continue
+			}
+			n++
+			bad := maySucceedWithout(r, host, group)
+			r.Check(bad == "", "R02.14", k, r.P.Pos(host.Pos()), "every possibly-successful end of the transaction body passes the mutation",
+				"the transaction body can end with a possibly-nil error at "+bad+" without "+names[0]+" having been issued: the operation is acknowledged although nothing was written")
+		}
+	}
+	_ = n
 }
